@@ -40,7 +40,11 @@ def mc_parser(ck, name, alphabet, maxlen, dump=True):
 
 
 def replay_cases(ck, cases, n, tag):
-    p = subprocess.run([HVPARSE, "replay", "--in", cases], stdout=subprocess.PIPE, text=True)
+    try:
+        p = subprocess.run([HVPARSE, "replay", "--in", cases], stdout=subprocess.PIPE, text=True, timeout=600 + n // 2000)
+    except subprocess.TimeoutExpired:
+        ck.violation("%s parse::parse does not return on some enumerated text (harness timed out)" % tag, {"kind": "hang", "cases": cases})
+        return
     if p.returncode != 0:
         raise ToolError("hv-parse replay failed")
     done = None
@@ -97,7 +101,11 @@ def t_traces(ck, jobs, wanted):
     files = []
     for i, argv in enumerate(jobs):
         path = os.path.join(work, "t%d.ndjson" % i)
-        p = subprocess.run([HVPARSE] + argv + ["--out", path])
+        try:
+            p = subprocess.run([HVPARSE] + argv + ["--out", path], timeout=900)
+        except subprocess.TimeoutExpired:
+            ck.violation("T parse::parse does not return on some generated text (hv-parse %s timed out)" % " ".join(argv), {"kind": "hang", "argv": argv})
+            continue
         if p.returncode != 0:
             raise ToolError("hv-parse %s failed" % argv[0])
         files.append(path)
@@ -105,7 +113,7 @@ def t_traces(ck, jobs, wanted):
         results = list(ex.map(validate, files))
     total = 0
     for path, r in zip(files, results):
-        events = [json.loads(l) for l in open(path)]
+        events = [json.loads(l) for l in open(path).read().split("\n") if l.strip()]
         end = [t for t in r.tuples if t[0] == "TRACE-END"]
         if not end or end[0][1] != end[0][2] or end[0][2] != len(events):
             raise ToolError("Trace_HyParser did not consume %s: %r %s\n%s" % (path, end, r.error, r.raw_tail[-1500:]))
